@@ -13,19 +13,33 @@ def encOf (s : String) : Option Enc :=
   if s = "gzip" then some .gzip else if s = "deflate" then some .deflate
   else if s = "zstd" then some .zstd else none
 
-def clsName : Cls → String
-  | .ok => "ok" | .user => "user" | .tooLargeEnc => "tooLargeEnc" | .over4G => "over4G"
-  | .badFlag => "badFlag" | .noEncoding => "noEncoding" | .tooLargeDec => "tooLargeDec"
-  | .decompress => "decompress" | .codec => "codec" | .eof => "eof" | .http => "http"
+/-- Who produced the status, as the harness can tell without reading tonic's message texts
+(`cls_of` in harness/src/framing.rs): the scripted doubles (`user`), the raw decoder double
+(`codec`; the prost decoder's error is built by tonic), or tonic itself (`t`).  The code is what
+tells tonic's own statuses apart. -/
+def clsName (prost : Bool) : Cls → String
+  | .ok => "ok" | .user => "user"
+  | .codec => if prost then "t" else "codec"
+  | .tooLargeEnc | .over4G | .encode | .badFlag | .noEncoding | .tooLargeDec | .decompress | .eof | .http => "t"
 
-def stTok (p : String) (st : St) : String := s!"{p}{st.code}:{clsName st.cls}"
+def stTok (prost : Bool) (p : String) (st : St) : String := s!"{p}{st.code}:{clsName prost st.cls}"
 
 /-- compression table from the case: (raw or `none` when the reference decompressor fails, compressed) -/
 abbrev ZTab := List (Option Bytes × Bytes)
 
-def tableCodec (tab : ZTab) (prost : Bool := false) : Codec Bytes where
+/-- prost's own verdict (prost called directly by the harness, not through tonic) on every frame
+payload of a `pdec` case: the canonical re-encoding of the message it decodes to, or `none` -/
+abbrev PTab := List (Bytes × Option Bytes)
+
+/-- the message decoder of a case: the raw double refuses a leading 0xFF; the prost codec is the
+case's table (a payload the table does not list is refused) -/
+def deOf (prost : Bool) (ptab : PTab) (b : Bytes) : Option Bytes :=
+  if prost then (match ptab.find? (fun e => e.1 == b) with | some e => e.2 | none => none)
+  else if b.head? = some 255 then none else some b
+
+def tableCodec (tab : ZTab) (prost : Bool := false) (ptab : PTab := []) : Codec Bytes where
   ser := id
-  de := fun b => if !prost && b.head? = some 255 then none else some b
+  de := fun b => if prost && ptab.isEmpty then some b else deOf prost ptab b
   deErr := 13
   cz := fun _ raw => match tab.find? (fun e => e.1 == some raw) with
     | some e => e.2
@@ -42,9 +56,80 @@ def parseZ : Nat → List String → Option (ZTab × List String)
     | _, _, _ => none
   | _, _ => none
 
-/-- hex without the leading `x` marker, as used inside event tokens -/
-def unhexBare (s : String) : Option Bytes := if s = "." then some [] else Hex.decodeChars s.toList
-def hexBare (b : Bytes) : String := String.ofList (Hex.encodeChars b)
+def parseP : Nat → List String → Option (PTab × List String)
+  | 0, rest => some ([], rest)
+  | k + 1, p :: c :: rest =>
+    match unhex p, (if c = "F" then some none else (unhex c).map some), parseP k rest with
+    | some pl, some canon, some (t, rest') => some ((pl, canon) :: t, rest')
+    | _, _, _ => none
+  | _, _ => none
+
+/-- the optional `P j …` section between the `Z` table and `EV` -/
+def parsePSection : List String → Option (PTab × List String)
+  | "P" :: j :: rest => (nat? j).bind (fun j => parseP j rest)
+  | rest => some ([], rest)
+
+/-! ### byte strings in tokens: bare hex with run-length groups `(bb*N)` (see `hexr` in framing.rs) -/
+
+/-- `n` copies of `b` in front of `tail` (one pass, nothing copied) -/
+def consN : Nat → UInt8 → Bytes → Bytes
+  | 0, _, acc => acc
+  | n + 1, b, acc => consN n b (b :: acc)
+
+/-- one piece `bb*N)rest` after an opening parenthesis: the byte, the count, the plain bytes after it -/
+def decodeRun (piece : String) : Option (UInt8 × Nat × Bytes) :=
+  match piece.splitOn ")" with
+  | [run, rest] =>
+    match run.splitOn "*", Hex.decodeChars rest.toList with
+    | [bb, n], some tail =>
+      match Hex.decodeChars bb.toList, n.toNat? with
+      | some [b], some n => some (b, n, tail)
+      | _, _ => none
+    | _, _ => none
+  | _ => none
+
+/-- hex without the leading `x` marker, as used inside event tokens; `.` is the empty string;
+runs may be written `(bb*N)` -/
+def unhexBare (s : String) : Option Bytes :=
+  if s = "." then some [] else
+  match s.splitOn "(" with
+  | [] => some []
+  | first :: runs =>
+    match Hex.decodeChars first.toList, runs.mapM decodeRun with
+    | some h, some rs => some (h ++ rs.foldr (fun (b, n, plain) acc => consN n b (plain ++ acc)) [])
+    | _, _ => none
+
+/-- number of leading bytes equal to `b` (starting the count at `n`), and the rest -/
+def runLen (b : UInt8) : Bytes → Nat → Nat × Bytes
+  | x :: xs, n => if x = b then runLen b xs (n + 1) else (n, x :: xs)
+  | [], n => (n, [])
+
+def hexRleAux : Nat → Bytes → String → String
+  | 0, _, acc => acc
+  | _ + 1, [], acc => acc
+  | fuel + 1, b :: bs, acc =>
+    let hi := Hex.digit (b.toNat / 16)
+    let lo := Hex.digit (b.toNat % 16)
+    let (n, rest) := runLen b bs 1
+    if n ≥ 32 then hexRleAux fuel rest ((((acc.push '(').push hi).push lo).push '*' ++ toString n ++ ")")
+    else hexRleAux fuel bs ((acc.push hi).push lo)
+
+/-- the canonical text of a byte string: bare hex, every maximal run (from the left) of 32 or
+more equal bytes as `(bb*N)` -/
+def hexBare (b : Bytes) : String := hexRleAux b.length b ""
+
+/-- a message of an encoder case: its bytes, and whether the harness's encoder double fails on it -/
+abbrev EMsg := Bytes × Bool
+
+/-- the encoder-side codec of a case: serialisation is the identity, `Encoder::encode` fails on
+the items the case marks (`f<k>.<hex>`), the compressor is the case's table -/
+def encCodec (tab : ZTab) : Codec EMsg where
+  ser := fun m => m.1
+  serFail := fun m => m.2
+  de := fun b => some (b, false)
+  deErr := 13
+  cz := (tableCodec tab).cz
+  dz := (tableCodec tab).dz
 
 structure EncCase where
   prost : Bool := false
@@ -52,53 +137,69 @@ structure EncCase where
   comp : Option Enc      -- configured, before the override
   npolls : Nat
   tab : ZTab
-  evs : List (SrcEv Bytes)
+  evs : List (SrcEv EMsg)
 
-def parseSrcEv (s : String) : Option (SrcEv Bytes) :=
+def parseSrcEv (s : String) : Option (SrcEv EMsg) :=
   match s.toList with
-  | 'i' :: cs => (Hex.decodeChars cs).map .item
+  | 'i' :: cs => (unhexBare (String.ofList cs)).map (fun b => .item (b, false))
+  | 'f' :: cs =>
+    -- `f<k>.<hex>`: what the double wrote before failing (`k` bytes) is dropped by tonic, so the model ignores `k`
+    match (String.ofList cs).splitOn "." with
+    | [_, h] => (unhexBare h).map (fun b => .item (b, true))
+    | _ => none
   | 'e' :: cs => (String.ofList cs).toNat?.map (fun c => .err ⟨c, .user⟩)
   | ['p'] => some .pending
   | _ => none
 
 def parseEncCase : List String → Option EncCase
-  | kind :: role :: comp :: ovr :: y :: _buf :: mx :: np :: "Z" :: k :: rest =>
+  | kind :: role :: comp :: ovr :: y :: buf :: mx :: np :: "Z" :: k :: rest =>
     if kind ≠ "enc" ∧ kind ≠ "penc" then none else
-    match nat? y, optNat? mx, nat? np, nat? k with
-    | some y, some mx, some np, some k =>
+    match nat? y, optNat? mx, nat? np, nat? k, nat? buf with
+    | some y, some mx, some np, some k, some buf =>
       match parseZ k rest with
       | some (tab, "EV" :: evs) =>
         match evs.mapM parseSrcEv with
         | some evs =>
           let c := encOf comp
           some { prost := kind = "penc",
-                 cfg := { comp := if ovr = "d" ∧ role = "s" then none else c, yieldThr := y, maxSize := mx, server := role = "s" },
+                 -- the model's `EncodeBody::new_server` / `new_client` (the per-response opt-out is the model's)
+                 cfg := if role = "s" then Enc.newServer c (if ovr = "d" then .disable else .inherit) y buf mx
+                        else Enc.newClient c y buf mx,
                  comp := c, npolls := np, tab := tab, evs := evs }
         | none => none
       | _ => none
-    | _, _, _, _ => none
+    | _, _, _, _, _ => none
   | _ => none
 
-def frameTok : FrameOut → String
+def frameTok (prost : Bool) : FrameOut → String
   | .data b => "d" ++ hexBare b
-  | .trailers st => stTok "t" st
-  | .err st => stTok "e" st
+  | .trailers st => stTok prost "t" st
+  | .err st => stTok prost "e" st
   | .pending => "p"
   | .none => "n"
+  | .panic => "panic"
 
-def runEnc (c : EncCase) : String :=
-  String.intercalate " " ((Enc.run (tableCodec c.tab c.prost) c.cfg c.npolls Enc.init c.evs).map frameTok)
+/-- one token per poll, then `E<bits>` (the model's `is_end_stream` before every poll and after
+the last) and `Hd` (the model's `size_hint` is the default in every state) -/
+def runEncToks (c : EncCase) : List String :=
+  let (tr, last) := Enc.trace (encCodec c.tab) c.cfg c.npolls Enc.init c.evs
+  let flags := tr.map (·.1) ++ [last]
+  let hint := if Enc.sizeHint Enc.init == (0, none) then "Hd" else "H?"
+  tr.map (fun x => frameTok c.prost x.2) ++ ["E" ++ String.ofList (flags.map (fun b => if b then '1' else '0')), hint]
+
+def runEnc (c : EncCase) : String := String.intercalate " " (runEncToks c)
 
 structure DecCase where
   prost : Bool := false
   cfg : DecCfg
   npolls : Nat
   tab : ZTab
+  ptab : PTab := []
   evs : List BodyEv
 
 def parseBodyEv (s : String) : Option BodyEv :=
   match s.toList with
-  | 'd' :: cs => (Hex.decodeChars cs).map .data
+  | 'd' :: cs => (unhexBare (String.ofList cs)).map .data
   | 't' :: cs => let r := String.ofList cs
                  if r = "none" then some (.trailers none) else r.toNat?.map (fun c => .trailers (some c))
   | 'e' :: cs => (String.ofList cs).toNat?.map (fun c => .err ⟨c, .user⟩)
@@ -116,28 +217,28 @@ def parseDecCase : List String → Option DecCase
     if kind ≠ "dec" ∧ kind ≠ "pdec" then none else
     match parseDir dir, optNat? mx, nat? np, nat? k with
     | some dir, some mx, some np, some k =>
-      match parseZ k rest with
-      | some (tab, "EV" :: evs) =>
+      match (parseZ k rest).bind (fun (tab, r) => (parsePSection r).map (fun (ptab, r') => (tab, ptab, r'))) with
+      | some (tab, ptab, "EV" :: evs) =>
         match evs.mapM parseBodyEv with
         | some evs =>
           -- `Streaming::new_empty` passes no encoding and no limit
           let (e, m) := match dir with | .empty => (none, none) | _ => (encOf enc, mx)
-          some { prost := kind = "pdec", cfg := { enc := e, maxSize := m, dir := dir }, npolls := np, tab := tab, evs := evs }
+          some { prost := kind = "pdec", cfg := { enc := e, maxSize := m, dir := dir }, npolls := np, tab := tab, ptab := ptab, evs := evs }
         | none => none
       | _ => none
     | _, _, _, _ => none
   | _ => none
 
-def itemTok : Item Bytes → String
+def itemTok (prost : Bool) : Item Bytes → String
   | .msg m => "m" ++ hexBare m
-  | .err st => stTok "e" st
+  | .err st => stTok prost "e" st
   | .none => "n"
   | .pending => "p"
 
 /-- the trailing `a0` token: the model never reserves memory for a refused frame, so the largest
 allocation stays within the harness's budget (`a1` = it did not) -/
 def runDec (c : DecCase) : String :=
-  String.intercalate " " ((Dec.run (tableCodec c.tab c.prost) c.cfg c.npolls Dec.init c.evs).map itemTok ++ ["a0"])
+  String.intercalate " " ((Dec.run (tableCodec c.tab c.prost c.ptab) c.cfg c.npolls Dec.init c.evs).map (itemTok c.prost) ++ ["a0"])
 
 def model (case : List String) : Option String :=
   match case with
@@ -145,6 +246,17 @@ def model (case : List String) : Option String :=
   | "penc" :: _ => (parseEncCase case).map runEnc
   | "dec" :: _ => (parseDecCase case).map runDec
   | "pdec" :: _ => (parseDecCase case).map runDec
+  | _ => none
+
+/-- a framing case, parsed once (the verdicts and the model run share it) -/
+inductive FCase
+  | enc (c : EncCase)
+  | dec (c : DecCase)
+
+def parseCase (case : List String) : Option FCase :=
+  match case with
+  | "enc" :: _ | "penc" :: _ => (parseEncCase case).map .enc
+  | "dec" :: _ | "pdec" :: _ => (parseDecCase case).map .dec
   | _ => none
 
 /-! ### spec-side helpers (use `Spec.Framing` only, never the model) -/
@@ -158,11 +270,152 @@ def obsData (obs : List String) : List Bytes :=
 def obsMsgs (obs : List String) : List Bytes :=
   obs.filterMap (fun t => if tokKind t = 'm' then unhexBare (t.drop 1).toString else none)
 
+/-- the per-poll tokens of an encoder observation (without the trailing `E…` / `H…` tokens) -/
+def pollToks (obs : List String) : List String := obs.filter (fun t => tokKind t ≠ 'E' && tokKind t ≠ 'H')
+
+/-- the observed `is_end_stream` flags: before poll 0, 1, …, and after the last poll -/
+def endFlagsOf (obs : List String) : List Bool :=
+  match obs.find? (fun t => tokKind t = 'E') with
+  | some t => (t.drop 1).toString.toList.map (· == '1')
+  | none => []
+
+/-- `is_end_stream()` may be true only when nothing more is to be sent: no data frame is produced
+at or after that point, and for a server body the trailers frame has already been produced (a
+true flag before it makes hyper end the stream without ever polling the grpc-status). -/
+def endStreamOk (server : Bool) (obs : List String) : Bool :=
+  let toks := pollToks obs
+  let flags := endFlagsOf obs
+  flags.length == toks.length + 1 &&
+  (List.range flags.length).all (fun i =>
+    !(flags.getD i false) ||
+      ((toks.drop i).all (fun t => tokKind t ≠ 'd') &&
+       (!server || (toks.take i).any (fun t => tokKind t = 't'))))
+
+/-- every observed `size_hint` is sound: lower ≤ bytes still to come ≤ upper -/
+def sizeHintOk (obs : List String) : Bool :=
+  match obs.find? (fun t => tokKind t = 'H') with
+  | none => false
+  | some t =>
+    if t = "Hd" then true else
+    let toks := pollToks obs
+    let hints := ((t.drop 1).toString.splitOn ",").map (fun h =>
+      match h.splitOn "/" with
+      | [l, u] => (l.toNat?.getD 0, u.toNat?)
+      | _ => (0, none))
+    let remaining (i : Nat) : Nat := (((toks.drop i).filterMap (fun t =>
+      if tokKind t = 'd' then unhexBare (t.drop 1).toString else none)).map List.length).foldl (· + ·) 0
+    hints.length == toks.length + 1 &&
+    (List.range hints.length).all (fun i =>
+      let (l, u) := hints.getD i (0, none)
+      decide (l ≤ remaining i) && (match u with | some u => decide (remaining i ≤ u) | none => true))
+
+/-- do the chunks concatenate to `whole`? (no concatenation is built) -/
+def eqConcat : List Bytes → Bytes → Bool
+  | [], whole => whole.isEmpty
+  | c :: cs, whole =>
+    let rec strip : Bytes → Bytes → Option Bytes
+      | [], w => some w
+      | _ :: _, [] => none
+      | x :: xs, y :: ys => if x == y then strip xs ys else none
+    match strip c whole with
+    | some rest => eqConcat cs rest
+    | none => false
+
+/-- do the two lists of chunks have the same concatenation? (neither is built) -/
+def eqConcat2 : Nat → List Bytes → List Bytes → Bool
+  | 0, _, _ => false
+  | _ + 1, [], r => r.all List.isEmpty
+  | _ + 1, l, [] => l.all List.isEmpty
+  | fuel + 1, [] :: l, r => eqConcat2 fuel l r
+  | fuel + 1, l, [] :: r => eqConcat2 fuel l r
+  | fuel + 1, (x :: xs) :: l, (y :: ys) :: r =>
+    -- strip the common prefix of the two head chunks
+    let rec strip : Bytes → Bytes → Option (Bytes × Bytes)
+      | [], w => some ([], w)
+      | v, [] => some (v, [])
+      | a :: as, b :: bs => if a == b then strip as bs else none
+    match strip (x :: xs) (y :: ys) with
+    | some (a, b) => eqConcat2 fuel (a :: l) (b :: r)
+    | none => false
+
+/-- `chunks` concatenate to the spec framing of `fps` (`Spec.Framing.frames fps` is not built: a
+16 MiB payload would be copied once per frame that follows it) -/
+def eqFrames (chunks : List Bytes) (fps : List (UInt8 × Bytes)) : Bool :=
+  eqConcat2 (2 * (chunks.length + fps.length) + 4) chunks (fps.map (fun fp => Spec.Framing.frame fp.1 fp.2))
+
+/-! ### Batching (rev1-FA3)
+
+C01 says the bytes do not depend on how output is batched, so where the chunk boundaries fall is
+not compared token for token: the model column repeats the observed polls whenever they differ
+from the model's own only by a *legal re-batching* — same bytes and same terminal frames
+(`canonEnc`), and every observed chunk obeys the batching contract (`batchingOk`). -/
+
+/-- an encoder observation up to batching: `Pending`s, the `E`/`H` tokens and trailing `n`s
+dropped, adjacent data chunks merged -/
+def canonEnc (toks : List String) : List String :=
+  let toks := toks.filter (fun t => t ≠ "p" && tokKind t ≠ 'E' && tokKind t ≠ 'H')
+  let flush (acc : List Bytes) (out : List String) : List String :=
+    if acc.isEmpty then out else ("d" ++ hexBare acc.reverse.flatten) :: out
+  let rec go : List String → List Bytes → List String → List String
+    | [], acc, out => flush acc out
+    | t :: r, acc, out =>
+      if tokKind t = 'd' then
+        match unhexBare (t.drop 1).toString with
+        | some b => go r (b :: acc) out
+        | none => go r [] (t :: flush acc out)
+      else go r [] (t :: flush acc out)
+  ((go toks [] []).dropWhile (· == "n")).reverse
+
+/-- is the message refused by `encode_item` (its encoder fails, or its payload is over the limit)? -/
+def refusedItem (c : EncCase) (m : EMsg) : Bool :=
+  m.2 || (match c.cfg.maxSize with
+    | some l => decide ((if c.cfg.comp.isSome then (tableCodec c.tab).cz .gzip m.1 else m.1).length > l)
+    | none => false)
+
+/-- The batching contract of `EncodedBytes::poll_next`, judged on the observed chunks and the
+case's source schedule alone: every chunk is non-empty and consists of whole frames, of
+consecutive ready items (nothing is held back across a `Pending` or an error of the source), and
+it ends either because the source had nothing more to give right then (`Pending`, end, error, a
+refused item) or because it reached the yield threshold — not having exceeded it before its last
+frame. -/
+def batchingOkSplit (c : EncCase) (chunks : List (Bytes × List (UInt8 × Bytes) × Bytes)) : Bool :=
+  let isGood : SrcEv EMsg → Bool := fun | .item m => !refusedItem c m | _ => false
+  let rec go : List (Bytes × List (UInt8 × Bytes) × Bytes) → List (SrcEv EMsg) → Bool
+    | [], _ => true
+    | (ch, frs, left) :: rest, evs =>
+      let k := frs.length
+      let evs := evs.dropWhile (fun e => !isGood e)
+      let lastLen := match frs.getLast? with | some fp => 5 + fp.2.length | none => 0
+      left.isEmpty && k > 0 &&
+      (evs.take k).length == k && (evs.take k).all isGood &&
+      ((decide (ch.length ≥ c.cfg.yieldThr) && decide (ch.length - lastLen ≤ c.cfg.yieldThr)) ||
+        (match (evs.drop k).head? with | none => true | some e => !isGood e)) &&
+      go rest (evs.drop k)
+  go chunks c.evs
+
+/-- the observed data chunks, each with its split into frames by the independent parser -/
+def splitChunks (obs : List String) : List (Bytes × List (UInt8 × Bytes) × Bytes) :=
+  (obsData (obs.filter (fun t => tokKind t ≠ 'E' && tokKind t ≠ 'H'))).map (fun ch => (ch, Spec.Framing.split ch))
+
+def batchingOk (c : EncCase) (obs : List String) : Bool := batchingOkSplit c (splitChunks obs)
+
+/-- the model column for an encoder case -/
+def encColumn (c : EncCase) (obs : List String) : String :=
+  let m := runEncToks c
+  if m == obs then String.intercalate " " m
+  else if canonEnc m == canonEnc obs && batchingOk c obs then String.intercalate " " obs
+  else String.intercalate " " m
+
+/-- Every `Pending` the code under test returned came with a wake-up (issued or registered) — the
+harness's drivers poll with a counting waker and report a `Pending` without one as `lost-wakeup`
+(under a real executor the stream would park for ever: the poll never completes). -/
+def noLostWakeup (obs : List String) : Bool := !obs.contains "lost-wakeup"
+
 /-- the tokens that are neither pending nor data/message -/
 def isBad (t : String) : Bool := t = "panic" || t = "busy-loop" || t = "hang"
 
-def itemsOf (evs : List (SrcEv Bytes)) : List Bytes :=
-  evs.filterMap (fun | .item m => some m | _ => none)
+def itemsOf (evs : List (SrcEv EMsg)) : List Bytes :=
+  evs.filterMap (fun | .item m => some m.1 | _ => none)
 
 def dataOf (evs : List BodyEv) : Bytes :=
   (evs.filterMap (fun | .data b => some b | _ => none)).flatten
@@ -180,6 +433,18 @@ def payloadMsg (tab : ZTab) (fp : UInt8 × Bytes) : Option Bytes :=
   if fp.1 = 0 then some fp.2
   else if fp.1 = 1 then (match tab.find? (fun e => e.2 == fp.2) with | some e => e.1 | none => none)
   else none
+
+/-- The reference receiver of a decoder case, for `Spec.Framing.batch` / `held`: built from the
+case's tables (reference decompressor, prost called directly / the raw double's rule) and the
+configured limit — nothing of the model. -/
+def recvOfCase (c : DecCase) : Spec.Framing.Recv Bytes where
+  limit := c.cfg.maxSize.getD (4 * 1024 * 1024)
+  hasEnc := c.cfg.enc.isSome
+  dz := fun comp => match c.tab.find? (fun e => e.2 == comp) with | some e => e.1 | none => none
+  de := fun b => if c.prost && c.ptab.isEmpty then some b else deOf c.prost c.ptab b
+
+/-- the case's events are data chunks and `Pending`s only (the body ends by itself) -/
+def plainEvs (evs : List BodyEv) : Bool := evs.all (fun | .data _ => true | .pending => true | _ => false)
 
 /-- magic numbers of the three encodings -/
 def magicOk (e : Enc) (p : Bytes) : Bool :=
